@@ -367,6 +367,32 @@ Lemma approx_is_tangent_minus_offset (xP mu mu_eq : list R) Gbeta offeq :
 Proof. intros H. unfold dg_approx. Rnorm. rewrite H. ring. Qed.
 
 (* ====================================================================================== *)
+(* the extra Gibbs energy enters per mole of atoms, whatever the size of the formula unit    *)
+Lemma extra_g_per_atom ast ge n : n <> 0 ->
+  extra_g Rops ast ge n / n = extra_gm Rops ast ge.
+Proof. intros Hn. unfold extra_g, extra_gm. Rnorm. field. exact Hn. Qed.
+
+(* raising GE by d raises the energy per mole of atoms by exactly d in both energy properties *)
+Lemma extra_shift ast ge d n : n <> 0 ->
+  extra_gm Rops ast (ge + d) - extra_gm Rops ast ge = d /\
+  extra_g Rops ast (ge + d) n / n - extra_g Rops ast ge n / n = d.
+Proof.
+  intros Hn. rewrite !extra_g_per_atom by exact Hn. unfold extra_gm. Rnorm. split; ring.
+Qed.
+
+(* stoichiometric precipitate (ast fixed), tangent plane of the matrix at the precipitate composition h (per mole of
+   atoms, n h per formula unit): the GE that puts the formula energy on the plane - what the tangent method solves
+   for, and what the interfacial-composition equilibrium imposes - is the plane distance h - ast that the sampling
+   method reads off the per-atom energy with GE = 0; for every n *)
+Lemma tangent_is_plane_distance ast h ge n : n <> 0 ->
+  (extra_g Rops ast ge n = n * h <-> ge = h - extra_gm Rops ast 0).
+Proof.
+  intros Hn. unfold extra_g, extra_gm. Rnorm. split; intros H.
+  - assert (E : (ast + ge) * n = h * n) by lra. apply Rmult_eq_reg_r in E; [lra|exact Hn].
+  - subst ge. ring.
+Qed.
+
+(* ====================================================================================== *)
 (* the sentinel: once unstable, unstable for every larger Gibbs-Thomson energy              *)
 Section Sentinel.
 (* the equilibrium calculation finds the two-phase region as long as the matrix composition it needs,
